@@ -364,6 +364,9 @@ func (ex *Explorer) runPath(h *HarnessSpec, solver *Solver, prefix []decision, w
 			case unsupported:
 				ctx.endReason = "unsupported"
 				out.inconcl = append(out.inconcl, "unsupported: "+p.msg)
+			case engineBug:
+				ctx.endReason = "engine error"
+				out.inconcl = append(out.inconcl, "engine error: "+p.msg)
 			case unwindFailure:
 				ctx.endReason = "unwinding failure"
 				out.inconcl = append(out.inconcl, "unwinding failure: "+p.msg)
